@@ -271,6 +271,30 @@ def _order_reach(fs: Set, l: str, r: str, strict: bool) -> bool:
     return False
 
 
+def _eq_class(fs: Set, t: str) -> Set[str]:
+    cls = {t}
+    changed = True
+    while changed:
+        changed = False
+        for a in fs:
+            if a[0] == 'cmp' and a[1] == '==':
+                if a[2] in cls and a[3] not in cls:
+                    cls.add(a[3]); changed = True
+                elif a[3] in cls and a[2] not in cls:
+                    cls.add(a[2]); changed = True
+    return cls
+
+
+def _distinct(fs: Set, l: str, r: str) -> bool:
+    """l != r follows from a known disequality between their equality classes."""
+    cl, cr = _eq_class(fs, l), _eq_class(fs, r)
+    for a in fs:
+        if a[0] == 'cmp' and a[1] == '!=':
+            if (a[2] in cl and a[3] in cr) or (a[3] in cl and a[2] in cr):
+                return True
+    return False
+
+
 def _ent(fs: Set, g) -> bool:
     if g[0] == 'true':
         return True
@@ -290,6 +314,8 @@ def _ent(fs: Set, g) -> bool:
         if op == '<=' and _order_reach(fs, l, r, False):
             return True
         if op == '<' and _order_reach(fs, l, r, True):
+            return True
+        if op == '<' and _order_reach(fs, l, r, False) and _distinct(fs, l, r):
             return True
         if op == '==' and _order_reach(fs, l, r, False) and _order_reach(fs, r, l, False):
             return True
